@@ -14,6 +14,7 @@ import (
 	"path/filepath"
 	"runtime/debug"
 	"strings"
+	"sync/atomic"
 	"time"
 
 	"github.com/johannesboyne/gofakes3"
@@ -42,6 +43,7 @@ type Instance struct {
 	memFs   afero.Fs
 	memMeta afero.Fs
 	boltDB  *bolt.DB
+	hung    bool
 }
 
 func (i *Instance) IsFs() bool     { return strings.HasPrefix(i.Kind, "fs") }
@@ -212,7 +214,16 @@ func (inst *Instance) Do(rq Req) Resp {
 	return inst.Serve(hr)
 }
 
+// hangs counts requests that did not return; a hung handler usually holds a lock that every
+// later request on the instance needs, so an instance that hung once answers "hang" at once
+// afterwards, and after a few hangs in the process so does every instance (the run reports
+// the first ones instead of waiting out the watchdog thousands of times).
+var hangs int32
+
 func (inst *Instance) Serve(hr *http.Request) (out Resp) {
+	if inst.hung || atomic.LoadInt32(&hangs) >= 3 {
+		return Resp{Hang: true}
+	}
 	rec := httptest.NewRecorder()
 	done := make(chan Resp, 1)
 	go func() {
@@ -233,6 +244,8 @@ func (inst *Instance) Serve(hr *http.Request) (out Resp) {
 	case r := <-done:
 		return r
 	case <-time.After(20 * time.Second):
+		inst.hung = true
+		atomic.AddInt32(&hangs, 1)
 		return Resp{Hang: true}
 	}
 }
